@@ -11,7 +11,7 @@ for d in sorted(glob.glob(os.path.join(V, 'seeded', '*'))):
     summ = m.get('summary') or ''
     det = m.get('detection') or {}
     caught = '; '.join('%s: %s' % (p, ('**caught** (`%s`)' % (r['violation_keys'][0][:70]) if r.get('exit') == 1 and r.get('violation_keys') else ('exit %s' % r.get('exit')))) for p, r in sorted(det.items()))
-    conf = 'yes' if m.get('confirmed') else ('pending' if m.get('confirmed') is None else 'NO')
+    conf = 'yes' if (m.get('confirmed') or m.get('reconfirmed_at')) else ('pending' if m.get('confirmed') is None else 'NO')
     rows.append('| %s | %s | %s | %s | %s | %s |' % (mid, m.get('property'), summ.replace('|', '/') or '(see notes.md)', (m.get('needs_short') or '').replace('|', '/'), conf, caught))
 print('| id | property | change | needs, to manifest | confirmed (tests pass, demo fails with / passes without) | quick-tier detection |')
 print('|---|---|---|---|---|---|')
